@@ -21,6 +21,10 @@ def main() -> int:
             from checks import rules_family
 
             return rules_family.run(a.prop, tier, a.seed)
+        if a.prop in ("C03", "C10"):
+            from checks import parse_family
+
+            return parse_family.run(a.prop, tier, a.seed)
         if a.prop == "C05":
             from checks import c05
 
